@@ -282,7 +282,7 @@ def scenario_module(rng, tok: Tok):
 def gen(tier: str, seed: int) -> list[Case]:
     rng = rng_for(seed, PID, "gen")
     gated = gated_features()
-    n_models = 6 if tier == "quick" else 60
+    n_models = 6 if tier == "quick" else 240
     cases = []
     for i in range(n_models):
         common = i % 2 == 0  # every second model uses only the constructs common to all styles (style relation)
